@@ -128,7 +128,7 @@ class Job:
         self.extra = list(extra)
         self.facet = facet
         self.unwindset = list(unwindset)
-        self.shape = shape if shape is not None else dict(defines)
+        self.shape = shape if shape is not None else dict(defines, config=config, harness=harness)
         self.note = note
         # [(library source, [functions whose bodies are removed and supplied by the harness])]:
         # the TU is compiled by goto-cc, goto-instrument --remove-function-body drops the callees,
@@ -694,6 +694,8 @@ def write_evidence(prop, tier, results, meta, wall, violations, known_hits, inco
     }
     for k, v in meta.get("coverage_extra", {}).items():
         ev["coverage"][k] = v
+    if "coverage_fn" in meta:
+        ev["coverage"].update(meta["coverage_fn"](results, violations))
     if violations:
         ev["coverage"]["violation_details"] = [
             {"query": r["name"], "assert": info["assert"], "replay": info["replay"], "how": info["how"]}
